@@ -54,7 +54,7 @@ Variable f : A -> square -> A.
 Variable X : Type.
 Variable In' : X -> A -> Prop.          (* membership in the accumulator *)
 Variable R : square -> X -> Prop.       (* what one iteration adds *)
-Hypothesis f_spec : forall acc sq x, In' x (f acc sq) <-> In' x acc \/ R sq x.
+Hypothesis f_spec : forall acc sq x, sq < 64 -> (In' x (f acc sq) <-> In' x acc \/ R sq x).
 
 Lemma bbLoop_In : forall fuel mask acc x,
   (forall i, N.testbit mask i = true -> 64 - N.of_nat fuel <= i /\ i < 64) ->
@@ -70,8 +70,9 @@ Proof.
       unfold firstSquare. rewrite (firstBitT_correct mask Hpos H64).
       pose proof (firstBit_testbit mask Hpos) as Hfb.
       pose proof (clearLowest_spec mask Hpos) as Hcl.
+      assert (Hf64 : firstBit mask < 64) by (apply Hb; exact Hfb).
       rewrite IH.
-      * rewrite f_spec. split.
+      * rewrite (f_spec _ _ _ Hf64). split.
         -- intros [[H|H]|[sq [Hs Hr]]]; [left; exact H | right; exists (firstBit mask); auto |].
            right. exists sq. rewrite Hcl in Hs. apply andb_true_iff in Hs. destruct Hs as [Hs _]. auto.
         -- intros [H|[sq [Hs Hr]]]; [left; left; exact H|].
@@ -106,11 +107,11 @@ Proof.
   intros l sq0 mask m Hm. unfold addMovesByMask.
   apply (forSquares_In (fun l sq => addMove l sq0 sq EMPTY) move (fun x l => In x l)
                        (fun sq x => x = mkMove sq0 sq EMPTY)); [|exact Hm].
-  intros acc sq x. apply addMove_In.
+  intros acc sq x _. apply addMove_In.
 Qed.
 
 Theorem forSquares_moves_In : forall (g : square -> N) mask l0 m,
-  mask < 2 ^ 64 -> (forall sq, g sq < 2 ^ 64) ->
+  mask < 2 ^ 64 -> (forall sq, sq < 64 -> g sq < 2 ^ 64) ->
   (In m (forSquares mask (fun l sq => addMovesByMask l sq (g sq)) l0) <->
    In m l0 \/ exists sq t, N.testbit mask sq = true /\ N.testbit (g sq) t = true /\ m = mkMove sq t EMPTY).
 Proof.
@@ -120,7 +121,7 @@ Proof.
   - split.
     + intros [H|[sq [Hs [t [Ht He]]]]]; [left; exact H | right; exists sq, t; auto].
     + intros [H|[sq [t [Hs [Ht He]]]]]; [left; exact H | right; exists sq; split; [exact Hs | exists t; auto]].
-  - intros acc sq x. apply addMovesByMask_In. apply Hg.
+  - intros acc sq x Hsq. apply addMovesByMask_In. apply Hg. exact Hsq.
   - exact Hm.
 Qed.
 
@@ -378,7 +379,7 @@ Proof.
       rewrite (ptBB_testbit p _ _ H Hpc). apply andb_true_iff. split; [apply N.ltb_lt; exact Hs|].
       apply N.eqb_eq. rewrite <- (at_getPiece p f r Hob), Hat, Emk. reflexivity.
   - apply ptBB_lt; assumption.
-  - intro sq. apply ldiff_lt. apply knightAttacks_lt.
+  - intros sq _. apply ldiff_lt. apply knightAttacks_lt.
 Qed.
 
 (** ** exactly one king *)
